@@ -43,3 +43,20 @@ Theorem C03_stop_exits_each_region_once : forall mc children fuel ev n r rn g,
   exit_regions mc children fuel ev n r rn g = iterM (exit_step mc children fuel ev) (seqn r n) rn g.
 Proof. exact exit_regions_seq. Qed.
 Print Assumptions C03_stop_exits_each_region_once.
+
+(* ---- the runtime tree keeps the shape of the definition ---- *)
+From Msm Require Import Lemmas_Quiesce Lemmas_Shape.
+
+(* wk mc rn: under every submachine state there is exactly one node, shaped like that submachine (recursively), and no
+   node anywhere else.  Every operation - any engine and policy, any plan of throws and submissions, any fuel - keeps
+   it, also when it is left through an exception; so it holds after every history on a fresh object: a submachine's
+   configuration exists exactly where the definition has a submachine, at every depth *)
+Theorem C03_tree_shape_kept_by_every_operation : forall cf parents root fuel rn o,
+  wk root rn -> wk root (fst (run_op cf root (build cf parents false root) fuel rn o)).
+Proof. exact run_op_wk. Qed.
+Print Assumptions C03_tree_shape_kept_by_every_operation.
+
+Theorem C03_tree_shape_always : forall cf parents root fuel l,
+  wk root (final_state cf parents root fuel (init_rnode root) l).
+Proof. exact history_wk. Qed.
+Print Assumptions C03_tree_shape_always.
